@@ -473,7 +473,8 @@ def pred_c10(ops, impl):
                 return "op %d: the same query asked twice gave %s then %s" % (n, impl[n - 1][:80], out[:80])
         elif h not in ("bind", "bind2", "bindc", "section"):
             last_hash = None
-    return None
+    import pred_wasm2
+    return pred_wasm2.later_reads_see_writes(ops, impl)
 
 
 def pred_c11(ops, impl):
